@@ -19,7 +19,7 @@ def make_plan(ths, tier, rnd):
         bodies, r = histories.exhaustive_bodies(theory, sig, api, n if n <= 2 else 2, 3,
                                                 2, 2 if thorough else 1, 4, f"c01-gen-{theory}")
         plan.add_gen(r)
-        cap = 600 if thorough else 250
+        cap = 400 if thorough else 250
         chosen = bodies if len(bodies) <= cap else rnd.sample(bodies, cap)
         for b in chosen:
             plan.add(theory, b)
